@@ -1,6 +1,470 @@
-//! C02 — stub (to be written; see /verif/harness/AUTHORING.md and DESIGN.md §3 C02)
-use vengine::Property;
+//! C02 — dataset operations keep record, target(s), weight and names of a sample together.
+//!
+//! Stateful / model-based: a generated dataset (every row carries an identity tag) is pushed through a
+//! history of 1..=6 operations by a typed interpreter (`interp`), each step judged against a reference
+//! model (`model`): a `Vec<Row>` on which every operation is the obvious few lines.
+
+pub mod interp;
+pub mod model;
+pub mod ops;
+
+use interp::{Codec, Node};
+use linfa::dataset::DatasetBase;
+use model::{fname, intern, rec_value, reduce, tname, weight_value, Cx, LType, Model, Row};
+use ndarray::{s, Array1, Array2, ShapeBuilder};
+pub use ops::{Op, Ratio};
+use proptest::prelude::*;
+use serde::{Deserialize, Serialize};
+use vengine::{enum_sub, prop_sub, Obs, Property, Tier};
+
+#[derive(Clone, Copy, Debug, PartialEq, Eq, Serialize, Deserialize)]
+pub enum Container {
+    /// owned, row-major
+    Owned,
+    /// owned, column-major records (and 2-D targets)
+    OwnedF,
+    /// plain views of owned arrays
+    View,
+    /// views that take every second row of arrays twice as long
+    Strided,
+}
+
+#[derive(Clone, Debug, Serialize, Deserialize)]
+pub struct Case {
+    /// samples (0..=64)
+    pub n: usize,
+    /// features (1..=4)
+    pub p: usize,
+    /// 0 = one-dimensional targets, otherwise the number of columns of a two-dimensional target array (1..=3)
+    pub t: usize,
+    pub lt: LType,
+    /// label codes, row-major n * max(t, 1); missing entries count as 0
+    pub labels: Vec<u8>,
+    pub weights: bool,
+    pub fnames: bool,
+    pub tnames: bool,
+    pub container: Container,
+    pub ops: Vec<Op>,
+}
+
+const MAX_N: usize = 64;
+
+struct Norm {
+    n: usize,
+    p: usize,
+    tc: usize,
+    ix2: bool,
+}
+
+fn norm(c: &Case) -> Norm {
+    Norm { n: c.n.min(MAX_N), p: c.p.clamp(1, 4), tc: c.t.clamp(1, 3), ix2: c.t >= 1 }
+}
+
+fn code(c: &Case, nm: &Norm, i: usize, col: usize) -> u8 {
+    reduce(c.lt, c.labels.get(i * nm.tc + col).copied().unwrap_or(0))
+}
+
+fn initial_model(c: &Case) -> Model {
+    let nm = norm(c);
+    Model {
+        rows: (0..nm.n).map(|i| Row { tag: i, lab: (0..nm.tc).map(|col| code(c, &nm, i, col)).collect() }).collect(),
+        cols: (0..nm.p).collect(),
+        tcols: (0..nm.tc).collect(),
+        ix2: nm.ix2,
+        has_w: c.weights && nm.n > 0,
+        has_fn: c.fnames,
+        has_tn: c.tnames,
+        lt: c.lt,
+    }
+}
+
+/// physical row -> logical sample (None = filler row of a strided backing array)
+fn logical(container: Container, r: usize) -> Option<usize> {
+    if container == Container::Strided {
+        if r % 2 == 0 {
+            Some(r / 2)
+        } else {
+            None
+        }
+    } else {
+        Some(r)
+    }
+}
+
+fn run_typed<L: Codec>(c: &Case, m: &Model, cx: &mut Cx)
+where
+    DatasetBase<Array2<f64>, Array1<L>>: Node,
+    DatasetBase<Array2<f64>, Array2<L>>: Node,
+    for<'x> DatasetBase<ndarray::ArrayView2<'x, f64>, ndarray::ArrayView1<'x, L>>: Node,
+    for<'x> DatasetBase<ndarray::ArrayView2<'x, f64>, ndarray::ArrayView2<'x, L>>: Node,
+{
+    let nm = norm(c);
+    let phys = if c.container == Container::Strided { 2 * nm.n } else { nm.n };
+    let cont = c.container;
+    let rec_at = |(r, j): (usize, usize)| match logical(cont, r) {
+        Some(i) => rec_value(i, j),
+        None => -1.0 - j as f64,
+    };
+    let lab_at = |r: usize, col: usize| match logical(cont, r) {
+        Some(i) => L::enc(code(c, &nm, i, col)),
+        None => L::enc(3),
+    };
+    let records = if cont == Container::OwnedF {
+        Array2::from_shape_fn((phys, nm.p).f(), rec_at)
+    } else {
+        Array2::from_shape_fn((phys, nm.p), rec_at)
+    };
+    let weights: Array1<f32> = if c.weights { (0..nm.n).map(weight_value).collect() } else { Array1::zeros(0) };
+    let fnames: Vec<String> = if c.fnames { (0..nm.p).map(fname).collect() } else { vec![] };
+    let tnames: Vec<String> = if c.tnames { (0..nm.tc).map(tname).collect() } else { vec![] };
+    macro_rules! dress {
+        ($ds:expr) => {
+            $ds.with_weights(weights.clone()).with_feature_names(fnames.clone()).with_target_names(tnames.clone())
+        };
+    }
+    if nm.ix2 {
+        let targets = if cont == Container::OwnedF {
+            Array2::from_shape_fn((phys, nm.tc).f(), |(r, col)| lab_at(r, col))
+        } else {
+            Array2::from_shape_fn((phys, nm.tc), |(r, col)| lab_at(r, col))
+        };
+        match cont {
+            Container::Owned | Container::OwnedF => dress!(DatasetBase::new(records, targets)).go(m, &c.ops, cx),
+            Container::View => dress!(DatasetBase::new(records.view(), targets.view())).go(m, &c.ops, cx),
+            Container::Strided => {
+                dress!(DatasetBase::new(records.slice(s![..;2, ..]), targets.slice(s![..;2, ..]))).go(m, &c.ops, cx)
+            }
+        }
+    } else {
+        let targets = Array1::from_shape_fn(phys, |r| lab_at(r, 0));
+        match cont {
+            Container::Owned | Container::OwnedF => dress!(DatasetBase::new(records, targets)).go(m, &c.ops, cx),
+            Container::View => dress!(DatasetBase::new(records.view(), targets.view())).go(m, &c.ops, cx),
+            Container::Strided => dress!(DatasetBase::new(records.slice(s![..;2, ..]), targets.slice(s![..;2]))).go(m, &c.ops, cx),
+        }
+    }
+}
+
+fn is_reorder(op: &str) -> bool {
+    matches!(op, "shuffle" | "bootstrap" | "bootstrap_samples" | "bootstrap_features")
+}
+fn is_select(op: &str) -> bool {
+    matches!(
+        op,
+        "split_owned" | "split_view" | "with_labels" | "one_vs_all" | "sample_chunks" | "sample_iter" | "target_iter" | "feature_iter"
+    )
+}
+
+/// The oracle: interpret the history of `c` against linfa and the reference model.
+pub fn check(c: &Case, obs: &mut Obs) {
+    let m = initial_model(c);
+    let nm = norm(c);
+    obs.class(match c.container {
+        Container::Owned => "start_owned",
+        Container::OwnedF => "start_owned_colmajor",
+        Container::View => "start_view",
+        Container::Strided => "start_strided_view",
+    });
+    obs.class(match c.lt {
+        LType::Usize => "labels_usize",
+        LType::Bool => "labels_bool",
+        LType::Str => "labels_str",
+    });
+    obs.class(if !nm.ix2 {
+        "targets_1d"
+    } else if nm.tc == 1 {
+        "targets_2d_1col"
+    } else {
+        "targets_2d_multi"
+    });
+    obs.class_if(nm.n == 0, "n_0");
+    obs.class_if(nm.n == 1, "n_1");
+    obs.class_if(c.weights, "with_weights");
+    obs.class_if(c.fnames && c.tnames, "with_names");
+    let distinct: std::collections::BTreeSet<&Vec<u8>> = m.rows.iter().map(|r| &r.lab).collect();
+    obs.class_if(distinct.len() == 1, "single_label_value");
+    for op in &c.ops {
+        if let Op::Split { ratio, .. } = op {
+            // classes of the ratio relative to the *initial* n (informative only)
+            let r = ratio.value(nm.n);
+            let single = (nm.n as f32 * r).ceil();
+            let double = (nm.n as f64 * r as f64).ceil();
+            obs.class_if(single as f64 != double, "split_ratio_f32_product_differs_from_f64");
+            obs.class_if(r == 0.0, "split_ratio_0");
+            obs.class_if(r == 1.0, "split_ratio_1");
+        }
+    }
+    let executed;
+    let inapplicable;
+    {
+        let mut cx = Cx::new(obs);
+        match c.lt {
+            LType::Usize => run_typed::<usize>(c, &m, &mut cx),
+            LType::Bool => run_typed::<bool>(c, &m, &mut cx),
+            LType::Str => run_typed::<&'static str>(c, &m, &mut cx),
+        }
+        executed = cx.executed.clone();
+        inapplicable = cx.inapplicable;
+    }
+    for op in &executed {
+        obs.class(intern(format!("op:{op}")));
+    }
+    for w in executed.windows(2) {
+        obs.class(intern(format!("pair:{}>{}", w[0], w[1])));
+    }
+    obs.class_if(inapplicable > 0, "some_op_inapplicable_skipped");
+    obs.class(match executed.len() {
+        0 => "executed_0",
+        1 => "executed_1",
+        2 => "executed_2",
+        3 => "executed_3",
+        _ => "executed_4plus",
+    });
+    let reorder_then_select =
+        executed.iter().position(|o| is_reorder(o)).map(|i| executed[i + 1..].iter().any(|o| is_select(o))).unwrap_or(false);
+    obs.class_if(reorder_then_select, "reorder_then_select");
+    let dressed = c.weights && c.fnames && c.tnames && nm.n > 0;
+    obs.nontrivial_if(!executed.is_empty() && ((executed.len() >= 2 && reorder_then_select) || dressed));
+}
+
+// ------------------------------------------------------------------------------------------------
+// generators
+
+fn op_strategy() -> impl Strategy<Value = Op> {
+    // kinds weighted: splits, with_labels and reorderings more often than the plain conversions
+    const TABLE: [u8; 26] = [0, 0, 0, 0, 1, 1, 1, 2, 2, 3, 4, 4, 5, 5, 5, 6, 6, 7, 7, 8, 9, 10, 11, 12, 13, 14];
+    (0usize..TABLE.len(), any::<u8>(), any::<u8>(), any::<u16>(), any::<u64>())
+        .prop_map(|(k, a, b, x, seed)| Op::from_parts(TABLE[k], a, b, x, seed))
+}
+
+fn case_strategy(max_n: usize) -> impl Strategy<Value = Case> {
+    let head = (
+        prop_oneof![1 => Just(0usize), 1 => Just(1usize), 10 => 2usize..=max_n],
+        1usize..=4,
+        0usize..=3,
+        prop_oneof![Just(LType::Usize), Just(LType::Bool), Just(LType::Str)],
+        1u8..=4,
+    );
+    let flags = (
+        prop_oneof![3 => Just(true), 1 => Just(false)],
+        prop_oneof![3 => Just(true), 1 => Just(false)],
+        prop_oneof![3 => Just(true), 1 => Just(false)],
+        prop_oneof![Just(Container::Owned), Just(Container::OwnedF), Just(Container::View), Just(Container::Strided)],
+    );
+    (head, flags, proptest::collection::vec(op_strategy(), 1..=6)).prop_flat_map(|((n, p, t, lt, k), (w, f, tn, cont), ops)| {
+        proptest::collection::vec(0u8..k, n * t.max(1)).prop_map(move |labels| Case {
+            n,
+            p,
+            t,
+            lt,
+            labels,
+            weights: w,
+            fnames: f,
+            tnames: tn,
+            container: cont,
+            ops: ops.clone(),
+        })
+    })
+}
+
+/// Total decoding of a byte string into a case (for a libFuzzer target driving the same oracle).
+pub fn case_from_bytes(data: &[u8]) -> Option<Case> {
+    if data.len() < 6 {
+        return None;
+    }
+    let mut pos = 0usize;
+    let mut next = |pos: &mut usize| -> u8 {
+        let b = data.get(*pos).copied().unwrap_or(0);
+        *pos += 1;
+        b
+    };
+    let n = (next(&mut pos) % 13) as usize;
+    let p = 1 + (next(&mut pos) % 4) as usize;
+    let t = (next(&mut pos) % 4) as usize;
+    let lt = match next(&mut pos) % 3 {
+        0 => LType::Usize,
+        1 => LType::Bool,
+        _ => LType::Str,
+    };
+    let flags = next(&mut pos);
+    let container = match (flags >> 3) % 4 {
+        0 => Container::Owned,
+        1 => Container::OwnedF,
+        2 => Container::View,
+        _ => Container::Strided,
+    };
+    let nops = 1 + (next(&mut pos) % 6) as usize;
+    let mut labels = Vec::with_capacity(n * t.max(1));
+    for _ in 0..n * t.max(1) {
+        labels.push(next(&mut pos) % 4);
+    }
+    let mut ops = Vec::with_capacity(nops);
+    for _ in 0..nops {
+        let kind = next(&mut pos);
+        let a = next(&mut pos);
+        let b = next(&mut pos);
+        let x = u16::from_le_bytes([next(&mut pos), next(&mut pos)]);
+        let mut sb = [0u8; 8];
+        for s in sb.iter_mut() {
+            *s = next(&mut pos);
+        }
+        ops.push(Op::from_parts(kind, a, b, x, u64::from_le_bytes(sb)));
+    }
+    Some(Case {
+        n,
+        p,
+        t,
+        lt,
+        labels,
+        weights: flags & 1 == 1,
+        fnames: flags & 2 == 2,
+        tnames: flags & 4 == 4,
+        container,
+        ops,
+    })
+}
+
+// ------------------------------------------------------------------------------------------------
+// enumerated strata
+
+/// smallest u16 that `vengine::gen::idx(_, len)` maps to k
+fn inv_idx(k: usize, len: usize) -> u16 {
+    let len = len.max(1) as u64;
+    ((((k as u64) << 16) + len - 1) / len).min(65535) as u16
+}
+
+fn representative_ops(n: usize) -> Vec<Op> {
+    let mut v = vec![];
+    for k in 0..=n {
+        // exact boundaries k/n of the ceiling, both halves, owned and through a view
+        let x = inv_idx(k, n + 1);
+        v.push(Op::Split { ratio: Ratio::KOverN(x), second: k % 2 == 0, via_view: false });
+        v.push(Op::Split { ratio: Ratio::KOverN(x), second: k % 2 == 1, via_view: true });
+    }
+    v.push(Op::Split { ratio: Ratio::ThreeTenths, second: true, via_view: false });
+    v.push(Op::Split { ratio: Ratio::Half, second: false, via_view: true });
+    for mask in 0..16u8 {
+        v.push(Op::WithLabels { mask, dup: mask % 5 == 0 });
+    }
+    for c in 0..=n {
+        let size = inv_idx(c, n + 1);
+        v.push(Op::Chunks { size, pick: (c as u16).wrapping_mul(9001) });
+    }
+    v.extend(fixed_ops());
+    v
+}
+
+fn fixed_ops() -> Vec<Op> {
+    vec![
+        Op::Shuffle { seed: 7 },
+        Op::Bootstrap { rows: 120, cols: 200, seed: 11, nth: 1 },
+        Op::BootstrapSamples { rows: 90, seed: 12, nth: 0 },
+        Op::BootstrapFeatures { cols: 130, seed: 13, nth: 2 },
+        Op::OneVsAll { pick: 40000 },
+        Op::SampleIter,
+        Op::TargetIter { pick: 50000 },
+        Op::FeatureIter { pick: 30000 },
+        Op::MapTargets { to: LType::Usize, f: model::MapFn::Inc },
+        Op::MapTargets { to: LType::Bool, f: model::MapFn::Id },
+        Op::MapTargets { to: LType::Str, f: model::MapFn::Half },
+        Op::View,
+        Op::ToOwned,
+        Op::IntoSingle,
+    ]
+}
+
+fn grid_labels(n: usize, tc: usize, variant: usize) -> Vec<u8> {
+    (0..n * tc).map(|i| ((i * (variant + 1) + i / 3 + variant) % 4) as u8).collect()
+}
+
+fn bases(ns: &[usize]) -> Vec<Case> {
+    let mut v = vec![];
+    for &n in ns {
+        for (ci, cont) in [Container::Owned, Container::OwnedF, Container::View, Container::Strided].into_iter().enumerate() {
+            for t in 0..=2usize {
+                for (li, lt) in [LType::Usize, LType::Bool, LType::Str].into_iter().enumerate() {
+                    v.push(Case {
+                        n,
+                        p: 1 + (n + ci + t) % 3,
+                        t,
+                        lt,
+                        labels: grid_labels(n, t.max(1), li + t),
+                        weights: true,
+                        fnames: true,
+                        tnames: true,
+                        container: cont,
+                        ops: vec![],
+                    });
+                }
+            }
+        }
+    }
+    v
+}
+
+fn single_op_grid(max_n: usize) -> Vec<Case> {
+    let ns: Vec<usize> = (0..=max_n).collect();
+    let mut v = vec![];
+    for b in bases(&ns) {
+        for op in representative_ops(b.n) {
+            let mut c = b.clone();
+            c.ops = vec![op];
+            v.push(c);
+        }
+    }
+    v
+}
+
+fn pair_grid(ns: &[usize]) -> Vec<Case> {
+    let mut second = fixed_ops();
+    second.push(Op::Split { ratio: Ratio::ThreeTenths, second: false, via_view: false });
+    second.push(Op::Split { ratio: Ratio::Half, second: true, via_view: true });
+    second.push(Op::WithLabels { mask: 0b0110, dup: false });
+    second.push(Op::Chunks { size: 20000, pick: 40000 });
+    let first = second.clone();
+    let mut v = vec![];
+    for b in bases(ns) {
+        for o1 in &first {
+            for o2 in &second {
+                let mut c = b.clone();
+                c.ops = vec![o1.clone(), o2.clone()];
+                v.push(c);
+            }
+        }
+    }
+    v
+}
 
 pub fn property() -> Property {
-    Property { id: "C02", rule: "", assumptions: vec![], subs: vec![] }
+    Property {
+        id: "C02",
+        rule: "case = generated dataset (n 0..=16 quick / 0..=40 thorough samples, 1..=4 features, 1-D or 2-D label targets with 1..=3 columns over an \
+               alphabet of 1..=4 labels of type usize|bool|&str, with/without weights, feature and target names; owned row-major, owned column-major, \
+               plain view, strided view) + history of 1..=6 operations interpreted step by step on the values linfa returns (typed interpreter over every \
+               reachable dataset shape), judged after every step against a Vec<Row> reference model; every row carries an identity tag \
+               (records[i,j] = 8*tag+feature, weight = tag+0.5, names f<j>/t<c>). Plus enumerated strata: every single operation on a grid of shapes \
+               (all split boundaries k/n, all label subsets, all chunk sizes) and all pairs of 18 representative operations. Non-trivial = at least one \
+               operation executed and (a reordering op (shuffle/bootstrap*) is later followed by a selecting op (split/with_labels/one_vs_all/chunks/iterators) \
+               or the dataset carries weights and both kinds of names); distinct = distinct canonical JSON of the case",
+        assumptions: vec![
+            "split ratios are generated inside [0,1] only (outside: documented underflow/panic); the expected split point is ceil(n as f32 * ratio) with the product in single precision, as the statement fixes".into(),
+            "all comparisons are exact (values are copied, never recomputed); weights are f32 values tag+0.5, exactly representable".into(),
+            "a result that carries weights / feature names / target names must carry the right ones (statement); in addition the operations documented or implemented as pure selections/views \
+             (split_with_ratio owned+view, with_labels, one_vs_all, view, map_targets, target_iter, feature_iter; names also for shuffle) must not lose them ('beyond the documented selection nothing changes'); \
+             shuffle (weights), bootstrap*, sample_chunks, to_owned, into_single_target build fresh datasets without them, which the statement allows; feature_iter may drop feature names when there are >= 2 features".into(),
+            "shuffle / bootstrap results are not predicted (they depend on the RNG stream): shuffle must be a permutation of all rows, bootstrap rows/columns must be existing rows/features in the requested shape, one column selection for all rows".into(),
+            "sample_chunks: chunk i must be rows [i*c, min(n,(i+1)*c)) in order; both dropping and yielding a trailing partial chunk are accepted (not specified); chunk size 0 is not generated (division by zero, as in ndarray)".into(),
+            "target_iter only on 2-D targets (the code documents that branch as 2-D only); into_single_target only with exactly one target column (documented panic otherwise); bootstrap only on non-empty datasets and with >= 1 feature column requested (empty range / untagged rows)".into(),
+            "owned split_with_ratio on column-major data is a documented panic: the interpreter takes view().split_with_ratio there".into(),
+            "one_vs_all order of labels is unspecified (HashSet); compared as a set. label_count() of every returned dataset is compared with a recount of the targets it returns".into(),
+            "trusted base: ndarray, DatasetBase::new/with_weights/with_feature_names/with_target_names used to build the initial dataset".into(),
+        ],
+        subs: vec![
+            prop_sub("histories", 240000, 2000000, |t: Tier| case_strategy(t.pick(16, 40)), check)
+                .chunks(16)
+                .require(&["reorder_then_select", "op:split_owned", "op:split_view", "op:with_labels", "op:one_vs_all", "op:shuffle"]),
+            enum_sub("single_op_grid", |t: Tier| single_op_grid(t.pick(9, 24)), check),
+            enum_sub("pair_grid", |t: Tier| pair_grid(if t == Tier::Quick { &[1, 5] } else { &[1, 2, 5, 8, 13] }), check),
+        ],
+    }
 }
